@@ -1,5 +1,6 @@
 import TflModel.Lemmas.Verify
 import TflModel.Lemmas.LinearEval
+import TflModel.Lemmas.Kahn
 /-!
 # What `linear_lib.verify_hyperparameters` guarantees about the scalings of the range-dominance
 projection (C16-T1 for Linear, used by Props/C16.lean and Props/C06Accepted.lean)
@@ -40,9 +41,10 @@ theorem rdDimBad_false {imin imax : Option (List Atom)} {d : Nat} (h : rdDimBad 
           · cases h
 
 /-- what the range-dominance loop establishes about the monotonicities of a pair:
-`monotonicities[dominant] == monotonicities[weak]` and `!= 0` (as numbers; `None == None`) -/
+`monotonicities[dominant] == monotonicities[weak]` (as numbers; `None == None`) and
+`monotonicities[dominant]` truthy (neither 0 nor — since fix 1f0b06a — `None`) -/
 def MonoPair (mono : List Atom) (p : Nat × Nat) : Prop :=
-  (mono.getD p.1 .none).num = (mono.getD p.2 .none).num ∧ (mono.getD p.1 .none).num ≠ some 0
+  (mono.getD p.1 .none).num = (mono.getD p.2 .none).num ∧ (mono.getD p.1 .none).truthy = true
 
 /-- everything the range-dominance loop establishes for one accepted pair -/
 def RdPairOK (mono : List Atom) (imin imax : Option (List Atom)) (p : Nat × Nat) : Prop :=
@@ -86,7 +88,8 @@ theorem linRdLoop_spec {mono : List Atom} {imin imax : Option (List Atom)} :
                 · cases h
                 · rename_i hmono
                   have hmp : MonoPair mono (atomNat a, atomNat b) := by
-                    simp only [Bool.or_eq_true, decide_eq_true_eq, beq_iff_eq, not_or, ne_eq, not_not] at hmono
+                    simp only [Bool.or_eq_true, decide_eq_true_eq, not_or, ne_eq, not_not, Bool.not_eq_true',
+                      Bool.not_eq_false] at hmono
                     exact ⟨hmono.1, hmono.2⟩
                   split at h
                   · cases h
@@ -146,7 +149,8 @@ theorem canonMonotonicity_num {ad : Bool} {it : Item} {a : Atom} (h : canonMonot
 /-- the parts of an accepted linear configuration -/
 theorem verifyLinear_parts {nid : Option Nat} {mv mdv rdv iminv imaxv : Val} {c : LinCfg}
     (h : verifyLinear nid mv mdv rdv iminv imaxv = .ok c) :
-    canonMonotonicities true mv = .ok c.mono ∧ linRd c.mono c.imin c.imax rdv = .ok c.rd := by
+    canonMonotonicities true mv = .ok c.mono ∧ linRd c.mono c.imin c.imax rdv = .ok c.rd ∧
+    linMd c.mono mdv = .ok c.md := by
   simp only [verifyLinear, bind, Except.bind] at h
   split at h
   · cases h
@@ -169,7 +173,7 @@ theorem verifyLinear_parts {nid : Option Nat} {mv mdv rdv iminv imaxv : Val} {c 
                 · cases h
                 · split at h
                   · cases h
-                  · rename_i md _
+                  · rename_i md hmd
                     split at h
                     · cases h
                     · rename_i rd hrd
@@ -177,14 +181,14 @@ theorem verifyLinear_parts {nid : Option Nat} {mv mdv rdv iminv imaxv : Val} {c 
                       · cases h
                       · simp only [pure, Except.pure, Except.ok.injEq] at h
                         subst h
-                        exact ⟨hm, hrd⟩
+                        exact ⟨hm, hrd, hmd⟩
 
 /-- **every accepted range-dominance pair**: both dimensions in range, both with bounds and
 `input_min < input_max`, equal non-zero monotonicities -/
 theorem verifyLinear_rd {nid : Option Nat} {mv mdv rdv iminv imaxv : Val} {c : LinCfg}
     (h : verifyLinear nid mv mdv rdv iminv imaxv = .ok c) :
     ∀ p ∈ c.rd, RdPairOK (c.mono.getD []) c.imin c.imax p := by
-  have hrd := (verifyLinear_parts h).2
+  have hrd := (verifyLinear_parts h).2.1
   intro p hp
   unfold linRd at hrd
   split at hrd
@@ -196,9 +200,61 @@ theorem verifyLinear_rd {nid : Option Nat} {mv mdv rdv iminv imaxv : Val} {c : L
       simp only [bind, Except.bind] at hrd
       split at hrd
       · cases hrd
-      · have := linRdLoop_spec _ _ _ (fun q hq => by cases hq) hrd p hp
-        rw [hm]
-        exact this
+      · split at hrd
+        · cases hrd
+        · rename_i ps hps
+          split at hrd
+          · cases hrd
+          · simp only [pure, Except.pure, Except.ok.injEq] at hrd
+            rw [← hrd] at hp
+            have := linRdLoop_spec _ _ _ (fun q hq => by cases hq) hps p hp
+            rw [hm]
+            exact this
+
+/-- **fix 2ef7ec2**: the dominance sets of an accepted linear configuration pass the round-based
+cycle check, hence are acyclic (`Tfl.Verify.kahnAcyclic_sound`): the hypothesis `Acyclic` of the C06
+theorems about the dominance projections is discharged by construction -/
+theorem verifyLinear_acyclic {nid : Option Nat} {mv mdv rdv iminv imaxv : Val} {c : LinCfg}
+    (h : verifyLinear nid mv mdv rdv iminv imaxv = .ok c) :
+    Tfl.Poset.Acyclic c.md ∧ Tfl.Poset.Acyclic c.rd := by
+  obtain ⟨_, hrd, hmd⟩ := verifyLinear_parts h
+  constructor
+  · unfold linMd at hmd
+    split at hmd
+    · simp only [Except.ok.injEq] at hmd
+      rw [← hmd]; exact (pacyclic_nat_iff _).mp pacyclic_nil
+    · split at hmd
+      · cases hmd
+      · simp only [bind, Except.bind] at hmd
+        split at hmd
+        · cases hmd
+        · split at hmd
+          · cases hmd
+          · rename_i ps _
+            split at hmd
+            · cases hmd
+            · rename_i hk
+              simp only [pure, Except.pure, Except.ok.injEq] at hmd
+              rw [← hmd]
+              exact (pacyclic_nat_iff _).mp (kahnAcyclic_sound _ ps (by simpa using hk))
+  · unfold linRd at hrd
+    split at hrd
+    · simp only [Except.ok.injEq] at hrd
+      rw [← hrd]; exact (pacyclic_nat_iff _).mp pacyclic_nil
+    · split at hrd
+      · cases hrd
+      · simp only [bind, Except.bind] at hrd
+        split at hrd
+        · cases hrd
+        · split at hrd
+          · cases hrd
+          · rename_i ps _
+            split at hrd
+            · cases hrd
+            · rename_i hk
+              simp only [pure, Except.pure, Except.ok.injEq] at hrd
+              rw [← hrd]
+              exact (pacyclic_nat_iff _).mp (kahnAcyclic_sound _ ps (by simpa using hk))
 
 theorem verifyLinear_mono_num {nid : Option Nat} {mv mdv rdv iminv imaxv : Val} {c : LinCfg}
     (h : verifyLinear nid mv mdv rdv iminv imaxv = .ok c) :
@@ -279,12 +335,77 @@ theorem verifyLinear_scalings_ne_zero {nid : Option Nat} {mv mdv rdv iminv imaxv
     intro e; linarith
   · simp [hp]
 
-/-- the direction hypothesis of `Tfl.C06.linear_range_dominance`: a range-dominance dimension that
-carries a monotonicity (the validation guarantees it unless the entry is `None`) is increasing with
-a positive scaling or decreasing with a negative one -/
+/-- a truthy canonical monotonicity is `-1` or `1` -/
+theorem truthy_num {a : Atom} (ht : a.truthy = true)
+    (hc : a.num = none ∨ a.num = some (-1) ∨ a.num = some 0 ∨ a.num = some 1)
+    (hs : a.isStr = false) : a.num = some (-1) ∨ a.num = some 1 := by
+  cases a with
+  | none => simp [Atom.truthy] at ht
+  | str t e => simp [Atom.isStr] at hs
+  | int i =>
+    simp only [Atom.truthy, bne_iff_ne, ne_eq] at ht
+    rcases hc with e | e | e | e
+    · simp [Atom.num] at e
+    · exact Or.inl e
+    · simp only [Atom.num, Option.some.injEq] at e
+      exact absurd (by exact_mod_cast e) ht
+    · exact Or.inr e
+  | flt r =>
+    simp only [Atom.truthy, bne_iff_ne, ne_eq] at ht
+    rcases hc with e | e | e | e
+    · simp [Atom.num] at e
+    · exact Or.inl e
+    · simp only [Atom.num, Option.some.injEq] at e
+      exact absurd e ht
+    · exact Or.inr e
+
+theorem canonMonotonicity_not_str {ad : Bool} {it : Item} {a : Atom} (h : canonMonotonicity ad it = .ok a) :
+    a.isStr = false := by
+  unfold canonMonotonicity at h
+  split at h
+  · cases h; rfl
+  · rename_i x _
+    split at h
+    · rename_i r hr
+      split at h
+      · split at h
+        · cases h
+        · cases h
+          cases a <;> simp [Atom.num] at hr <;> rfl
+      · cases h
+    · split at h
+      · split at h
+        · cases h; rfl
+        · cases h
+      · cases h; rfl
+      · cases h; rfl
+      · cases h
+  · cases h
+
+theorem verifyLinear_mono_not_str {nid : Option Nat} {mv mdv rdv iminv imaxv : Val} {c : LinCfg}
+    (h : verifyLinear nid mv mdv rdv iminv imaxv = .ok c) : ∀ a ∈ c.mono.getD [], a.isStr = false := by
+  have hm := (verifyLinear_parts h).1
+  intro a ha
+  unfold canonMonotonicities at hm
+  split at hm
+  · simp only [Except.ok.injEq] at hm
+    rw [← hm] at ha; cases ha
+  · simp only [bind, Except.bind] at hm
+    split at hm
+    · cases hm
+    · split at hm
+      · cases hm
+      · rename_i ys hys
+        simp only [pure, Except.pure, Except.ok.injEq] at hm
+        rw [← hm] at ha
+        obtain ⟨it, _, hit⟩ := mapE_mem hys ha
+        exact canonMonotonicity_not_str hit
+
+/-- **fix 1f0b06a**: both dimensions of an accepted range-dominance pair carry the SAME monotonicity,
+and it is `1` or `-1` (a `None` entry, which `== 0` let through, is rejected now): with the positive
+ranges of `verifyLinear_range` this is the direction hypothesis of `Tfl.C06.linear_range_dominance` -/
 theorem verifyLinear_hdir {nid : Option Nat} {mv mdv rdv iminv imaxv : Val} {c : LinCfg}
-    (h : verifyLinear nid mv mdv rdv iminv imaxv = .ok c)
-    (hmono : ∀ p ∈ c.rd, getM c.monos p.1 ≠ 0) :
+    (h : verifyLinear nid mv mdv rdv iminv imaxv = .ok c) :
     ∀ p ∈ c.rd, ∀ k, (k = p.1 ∨ k = p.2) →
       (getM c.monos k = 1 ∧ 0 < getV (scalings c.monos c.rd c.los c.his) k) ∨
       (getM c.monos k = -1 ∧ getV (scalings c.monos c.rd c.los c.his) k < 0) := by
@@ -292,10 +413,6 @@ theorem verifyLinear_hdir {nid : Option Nat} {mv mdv rdv iminv imaxv : Val} {c :
   obtain ⟨⟨h1, h2⟩, _, _, hmp⟩ := verifyLinear_rd h p hp
   obtain ⟨hklt, l, h', e1, e2, hlt⟩ := verifyLinear_range h hp hk
   have hin : inPairs c.rd k = true := inPairs_iff.mpr ⟨p, hp, hk⟩
-  have hcan := verifyLinear_mono_num h ((c.mono.getD []).getD p.1 .none)
-  have hm1 := hmono p hp
-  rw [getM_monos] at hm1
-  -- both dimensions of the pair carry the same canonical monotonicity, which is ±1
   have hk1 : getM c.monos k = monoOf ((c.mono.getD []).getD p.1 .none) := by
     rw [getM_monos]
     rcases hk with e | e <;> subst e
@@ -304,18 +421,15 @@ theorem verifyLinear_hdir {nid : Option Nat} {mv mdv rdv iminv imaxv : Val} {c :
   have hmem : (c.mono.getD []).getD p.1 .none ∈ c.mono.getD [] := by
     rw [List.getD_eq_getElem?_getD, List.getElem?_eq_getElem h1]
     exact List.getElem_mem _
+  have hnum := truthy_num hmp.2 (verifyLinear_mono_num h _ hmem) (verifyLinear_mono_not_str h _ hmem)
   rw [scalings_spec c.monos c.rd c.los c.his hklt, hin, e1, e2, hk1]
   simp only [if_true, rangeOf]
-  have hpos : 0 < h' - l := by linarith
   have fm1 : ((-1 : Int) : Rat).floor = -1 := Rat.floor_intCast (-1)
   have f1 : ((1 : Int) : Rat).floor = 1 := Rat.floor_intCast 1
-  have f0 : ((0 : Int) : Rat).floor = 0 := Rat.floor_intCast 0
-  rcases hcan hmem with e | e | e | e
-  · exact absurd (by simp only [monoOf, e]) hm1
+  rcases hnum with e | e
   · have : monoOf ((c.mono.getD []).getD p.1 .none) = -1 := by
       simp only [monoOf, e]; exact_mod_cast fm1
     right; rw [this]; exact ⟨rfl, by simp only [if_true]; linarith⟩
-  · exact absurd e hmp.2
   · have : monoOf ((c.mono.getD []).getD p.1 .none) = 1 := by
       simp only [monoOf, e]; exact_mod_cast f1
     left; rw [this]; exact ⟨rfl, by norm_num; exact hlt⟩
